@@ -12,6 +12,7 @@ import (
 	"hash/fnv"
 	"os"
 	"regexp"
+	"runtime/debug"
 	"runtime/pprof"
 	"strings"
 	"sync"
@@ -278,10 +279,9 @@ func run(r *core.Run) {
 		_ = pprof.StartCPUProfile(f)
 		defer pprof.StopCPUProfile()
 	}
+	// the workload is millions of short-lived runtimes: trade memory for less collector work
+	defer debug.SetGCPercent(debug.SetGCPercent(400))
 	fams := families(r.Thorough())
-	if os.Getenv("C17_TRY") != "" {
-		fams = tryFamilies()
-	}
 	if only := os.Getenv("C17_FAMILY"); only != "" {
 		var keep []family
 		for _, f := range fams {
@@ -432,19 +432,4 @@ func replay(v core.Violation) (bool, string) {
 		}
 	}
 	return false, b.String()
-}
-
-func tryFamilies() []family {
-	ab := []string{"a", "b"}
-	var w int
-	fmt.Sscan(os.Getenv("C17_TRY"), &w)
-	return []family{
-		{name: "exprnd", cfg: gcfg{Names: ab, MaxW: w, MaxItems: 0, Let2: true, Dotimes: true, Macrolet: true, FunArg: true, Styles: 1}},
-		{name: "topnd", cfg: gcfg{Names: ab, MaxW: w, MaxItems: 3, Styles: 4, GSet: true, Macros: true, Redefine: true}},
-		{name: "top2", cfg: gcfg{Names: ab, MaxW: w, MaxItems: 3, Styles: 1, Redefine: true}},
-		{name: "top3", cfg: gcfg{Names: ab, MaxW: w, MaxItems: 3, Styles: 1, GSet: true, Macros: true, Redefine: true}},
-		{name: "top4", cfg: gcfg{Names: ab, MaxW: w, MaxItems: 3, Styles: 4, Redefine: true, FixParam: true}},
-		{name: "pkg1", cfg: gcfg{Names: ab, MaxW: w + 2, MaxItems: 6, HoleMaxW: 1, FinalMaxW: 2, Styles: 1, Packages: true, Files: true, Macros: true, FixParam: true, DefNames: 1}},
-		{name: "pkg1b", cfg: gcfg{Names: ab, MaxW: w + 3, MaxItems: 6, HoleMaxW: 1, FinalMaxW: 2, Styles: 1, Packages: true, Files: true, Macros: true, FixParam: true, DefNames: 1}},
-	}
 }
